@@ -148,8 +148,19 @@ def run_c10(unit):
     seen = set()
     for ci, (form, c, desc) in enumerate(_callables(shape, entered, mode)):
         tables = [K.Table() for _ in cfgs]
-        for (args0, kwi0) in S.call_forms(shape, maxpos, maxkw, orders=False):
-            for (args, kwi) in K.value_variants(args0, kwi0):
+        forms = [(a, k, True) for (a, k) in S.call_forms(shape, maxpos, maxkw, orders=False)]
+        if form == 'sibling-closure':
+            # the sibling made by the same factory has OTHER defaults: a call that spells out the sibling's default binds a
+            # different value than the call that omits the argument, so the two must not share a key
+            names = shape.names()
+            for (a, k, _) in list(forms):
+                a2 = tuple(S.DEF[names[i]] if i < shape.npos and i >= shape.npos - shape.ndef else v for i, v in enumerate(a))
+                k2 = [(n, S.DEF[n] if n in S.DEF and (n in [x for (x, d) in shape.kwo if d] or (n in names[:shape.npos] and names.index(n) >= shape.npos - shape.ndef)) else v)
+                      for (n, v) in k]
+                if a2 != a or k2 != k:
+                    forms.append((a2, k2, False))
+        for (args0, kwi0, vary) in forms:
+            for (args, kwi) in (K.value_variants(args0, kwi0) if vary else [(args0, kwi0)]):
                 ok, got = S.really_binds(c, entered, args, kwi)
                 if not ok:
                     continue
